@@ -37,6 +37,14 @@ def gen_dict(rnd, small=True):
         sp = rnd.choice(ANC_SPEECHES)
         w = r if isinstance(sp, dict) and "Particle" in sp or sp == "AuxiliaryVerb" else rnd.choice(KANJI)
         anc.append([r, w, sp])
+    # an ancillary word written like an independent word (的/てき next to 的/まと): learned counts are kept per written form
+    if std and rnd.random() < 0.3:
+        for _ in range(rnd.randint(1, 2)):
+            anc.append([reading(2), rnd.choice(std)[1], rnd.choice([{"Affix": "Suffix"}, {"Affix": "Prefix"}, "AuxiliaryVerb", "Counter", {"Particle": "Case"}])])
+    # alphabetic readings (tel, ok): the input may spell them in another case, which is NOT the dictionary reading
+    if rnd.random() < 0.2:
+        for _ in range(rnd.randint(1, 2)):
+            std.append(["".join(rnd.choice("abekotl") for _ in range(rnd.randint(1, 3))), rnd.choice(KANJI) + rnd.choice(KANJI), rnd.choice([{"Noun": "Common"}, {"Noun": "Proper"}])])
     # prefix / suffix sharing a reading (the F10 shape) now and then
     if rnd.random() < 0.2:
         r = reading(2)
@@ -51,12 +59,20 @@ def gen_input(rnd, d, alpha, maxlen=8):
     while len(s) < rnd.randint(1, maxlen):
         k = rnd.random()
         if words and k < 0.7:
-            s += rnd.choice(words)[0]
+            w = rnd.choice(words)[0]
+            if w.isascii() and rnd.random() < 0.6:
+                w = "".join(c.upper() if rnd.random() < 0.5 else c for c in w)      # Tel, OK: not the reading tel, ok
+            s += w
         else:
             s += rnd.choice(alpha)
     if rnd.random() < 0.1:
         s += rnd.choice("xy漢ー")       # characters outside every reading
-    return s[:maxlen + 2]
+    s = s[:maxlen + 2]
+    if rnd.random() < 0.12:
+        # white space and other characters no reading contains, at either end: they stay in the candidate as they are
+        ws = rnd.choice([" ", "\n", "\t", "\u3000", "\r\n", "\u00a0", "A", "１"])
+        s = ws + s if rnd.random() < 0.5 else s + ws
+    return s
 
 
 def gen_freq(rnd, d):
@@ -188,7 +204,15 @@ def make_queries(rnd, count, n_choices=(1, 2, 3, 5, 100), small=True, maxlen=8, 
         for _ in range(rnd.randint(1, 4)):
             qs.append({"op": "kkc_query", "dict": d, "context": rnd.choice(contexts), "freq": gen_freq(rnd, d),
                        "input": gen_input(rnd, d, alpha, maxlen), "n": rnd.choice(n_choices)})
-    return qs[:count]
+    qs = qs[:count]
+    # inputs longer than any plausible internal limit (65, 80, 129 characters): every character is still tiled
+    for ln in (65, 80, 129):
+        d, alpha = gen_dict(rnd, True)
+        inp = ""
+        while len(inp) < ln:
+            inp += rnd.choice(d["std"] + d["anc"])[0] if rnd.random() < 0.8 else rnd.choice(alpha)
+        qs.append({"op": "kkc_query", "dict": d, "context": rnd.choice(contexts), "freq": [], "input": inp[:ln], "n": 2})
+    return qs
 
 
 TEST_DIC = {"alphabet": FULL_ALPHA,
